@@ -1,5 +1,6 @@
 """C05 — reflection metadata agrees with the emitted source."""
 import facts as F
+import mirs as M
 import thirflow as TF
 from facts import short, where
 
@@ -74,6 +75,12 @@ def run(chk):
                     pv = F.pat_variant(cond["pat"])
                     src = F.strip(cond["e"])
                     guarded = pv == ("Option", "Some") and src.get("k") == "Field" and src["name"] in ("api_slot", "api_binding")
+            if not guarded:
+                # the same guard written as `let Some(api_slot) = decl.api_slot else { return }` or a match: MIR dominance
+                cfg_ab = M.Cfg(ab)
+                somes = M.option_field_some_targets(cfg_ab, ("api_slot", "api_binding"))
+                sites = [bb for bb, t_ in cfg_ab.calls("register_binding") if (t_.get("ln") or 0) == (c.get("ln") or -1)] or [bb for bb, t_ in cfg_ab.calls("register_binding")]
+                guarded = bool(somes) and bool(sites) and all(any(cfg_ab.dominates(s_, bb) for s_ in somes) for bb in sites)
             chk.ob("C05.slot/%s/registered-iff-bound" % tgt, guarded, "metadata entry exists exactly when the declaration has an api slot" if guarded else
                    "register_binding is no longer guarded by `if let Some(api_slot) = decl.api_slot`", where(ab, c))
         chk.floor("C05.floor/%s/register-calls" % tgt, len(regs), 2 if tgt == "hlsl" else 1, "register_binding calls", where(ab))
@@ -257,25 +264,36 @@ def rule_entry(chk):
     gp = f.fn("generate_pipeline", "rssl_msl")
     if not bp:
         return
-    stages = [a for a in F.exprs(bp["thir"], "Adt") if short(a["adt"]) == "CompiledPipelineStage"]
+    import interp as I
+    # construction sites in build_pipeline itself or in a closure of it (`stages.iter().map(|stage| CompiledPipelineStage {..})`)
+    stages = [(a, b_) for b_ in [bp] + f.closures_of(bp["path"]) for a in F.exprs(b_["thir"], "Adt") if short(a["adt"]) == "CompiledPipelineStage"]
     chk.floor("C05.floor/stage-sites", len(stages), 2, "CompiledPipelineStage construction sites", where(bp))
     tr = TF.Tracer(f, max_depth=2, no_inline=NAMEMAP + ("get_function_name",))
     msl_tab = {}
-    for a in stages:
+    all_stages = f.variants("ShaderStage", "rssl_ir") or []
+    for a, owner_body in stages:
         fl = {x["f"]: x["e"] for x in a["fields"]}
         for fld in ("stage", "thread_group_size"):
-            org = tr.trace(bp, fl[fld], ())
+            org = tr.trace(owner_body, fl[fld], ())
             ok = bool(org) and pure(org) and all(has_step(p, fld) for p in param_paths(org)) and bool(param_paths(org))
             chk.ob("C05.stage/%s" % fld, ok, "%s copied from the pipeline stage" % fld if ok else "%s is not a copy of the selected stage's field" % fld, where(bp, a))
-        ms = [m for m in F.exprs(fl["entry_point"], "Match") if F.strip(m["scrut"]).get("ty", "").endswith("ShaderStage")]
-        if ms:
-            for arm in ms[0]["arms"]:
-                pv = F.pat_variant(arm["pat"])
-                l = F.lit(arm["body"])
-                if pv and l:
-                    msl_tab[pv[1]] = l[1]
+        # the reported entry point as a function of the stage kind (finite-map reader; helpers are inlined)
+        sv = F.leftmost_var(fl["stage"])
+        tab = {}
+        if sv is not None:
+            ipx = I.Interp(f)
+            for s_ in all_stages:
+                try:
+                    v_ = ipx.ev(fl["entry_point"], {sv["id"]: I.Enum("PipelineStage", None, {"stage": I.Enum("ShaderStage", s_), "thread_group_size": I.Opaque("tgs"),
+                                                                                            "entry_point": I.Opaque("fn")})})
+                    if isinstance(v_, str):
+                        tab[s_] = v_
+                except I.Unknown:
+                    pass
+        if len(tab) == len(all_stages) and tab:
+            msl_tab = tab
         else:
-            org = tr.trace(bp, fl["entry_point"], ())
+            org = tr.trace(owner_body, fl["entry_point"], ())
             via_map = any(o[0] == "call" and o[1].endswith(NAMEMAP) for o in org)
             chk.ob("C05.entry/hlsl", via_map, "entry point name comes from NameMap" if via_map else
                    "the HLSL entry point is reported under the raw registry name (%s) while the function is emitted under its NameMap name"
